@@ -133,7 +133,7 @@ struct BytesWorld : World {
 #endif
             if (c < 12) pl.add("hexenc", {(int64_t)r.pickv({0, 1, 2, 7, 16, 33, 200}), (int64_t)(r.chance(1, 2) ? r.below(2) : r.below(8)), (int64_t)r.below(5), (int64_t)(r.next() >> 1)});
             else if (c < 24) pl.add("hexdec", {(int64_t)r.pickv({0, 1, 2, 3, 8, 16, 33, 100}), (int64_t)r.below(4), (int64_t)r.below(5), (int64_t)(r.next() >> 1)});
-            else pl.add("hexcpp", {(int64_t)r.pickv({0, 1, 2, 5, 16, 40}), (int64_t)r.below(4), (int64_t)r.below(4), (int64_t)(r.next() >> 1)});
+            else pl.add("hexcpp", {(int64_t)r.pickv({0, 1, 2, 5, 16, 40, 63, 64, 65, 127, 128, 129, 200, 599}), (int64_t)r.below(4), (int64_t)r.below(4), (int64_t)(r.next() >> 1)});
         }
     }
 
@@ -217,7 +217,7 @@ struct BytesWorld : World {
     void do_hexcpp(Run &run, const Op &op)
     {
         Rng r(op.u(3));
-        size_t nbytes = (size_t)(op.u(0) % 200);
+        size_t nbytes = (size_t)(op.u(0) % 600);
         int kind = (int)(op.u(1) % 4);
         int how = (int)(op.u(2) % 4);
         std::string text = gen_hex_text(r, nbytes, kind);
